@@ -9,6 +9,7 @@ CONSTANTS
   ResetMax = 1
   ErrorResetMax = 2
   LazyClient = FALSE
+  OldPushBugs = FALSE
   OldIdleCheck = FALSE
   NPeer = 4
   NAppX = 2
@@ -24,7 +25,7 @@ CONSTANTS
   ExportLen = 0
   HasFiller = FALSE
   SimDrops = FALSE
-INVARIANT InvAssertKnownClient
+INVARIANT InvAssert
 INVARIANT InvStructure
 INVARIANT InvKept
 INVARIANT InvBounded
